@@ -27,5 +27,5 @@ func (e *ExponentialFromZeroFatigue) Spec_Evaluate(params interface{}) float64 {
 		Alpha:      p.Alpha,
 		Multiplier: p.Multiplier,
 	}
-	return function.Evaluate(float64(p.QueryNumber))
+	return function.Spec_Evaluate(float64(p.QueryNumber))
 }
